@@ -155,6 +155,7 @@ template <sz R, sz C, class KX, class KY> void strided_matrix_pair(rmat<R, C> co
     mobj<R, C, KX> T{bt.make()};
     T = Y;
     C14_EQ(bt.b.raw(), bt.b.with(rawx, b.d), sg + ":assign:other_view_to_view", "X=Y");
+    if constexpr (int_writes_ok)
     static_for_rc<R, C>([&](auto ri, auto ci) {
       constexpr sz r = decltype(ri)::value, c = decltype(ci)::value;
       rmat<R, C> nv = b;
